@@ -161,7 +161,7 @@ def add_batch(u):
             C('C01.batch.needs_time_flush.due_after_15ms', 'r == (self.queue.len() > 0 && sub_sat(now_ms, self.last_flush_ms) >= 15)')]),
         u.fn(B, 'has_queued_packets', impl='BatchSender', sub='batch', ret='r', ensures=[C('C01.batch.sender.has_queued_packets_iff_queue_nonempty', 'r == (self.queue.len() > 0)')]),
         u.fn(B, 'queued_count', impl='BatchSender', sub='batch', ret='r', requires=['self.wf()'],
-             ensures=['r == self.queue.len()', '0 <= r']),
+             ensures=[C('C10+C11.batch.queued_count.counts_every_datagram_still_queued', 'r == self.queue.len()'), '0 <= r']),
         u.fn(B, 'drain', impl='BatchSender', sub='batch', ret='r', pre_rewrite=[zip3], requires=['old(self).wf()'], ensures=[
             C('C01+C02.batch.drain.keeps_parallel_vectors_in_step', 'final(self).wf()'),
             C('C01.batch.drain.empties', 'final(self).queue.len() == 0'),
@@ -170,7 +170,7 @@ def add_batch(u):
             && (forall|i: int| 0 <= i < r.len() ==> (#[trigger] r[i]).0@ == old(self).queue[i]@ && r[i].1 == old(self).sequences[i] && r[i].2 == old(self).queue_times[i])'''),
         ]),
         u.fn(B, 'reset', impl='BatchSender', sub='batch', ensures=[
-            C('C01+C02.batch.reset.keeps_parallel_vectors_in_step', 'final(self).wf()'), C('C01.batch.reset.empties', 'final(self).queue.len() == 0'),
+            C('C01+C02+C08.batch.reset.keeps_parallel_vectors_in_step', 'final(self).wf()'), C('C01.batch.reset.empties', 'final(self).queue.len() == 0'),
             'final(self).regime == old(self).regime', 'final(self).last_flush_ms == 0']),
     ]))
 
@@ -275,10 +275,16 @@ def add_rtt(u):
         u.fn(K + 'connection/bitrate.rs', 'new', impl='BitrateTracker', sub='reconn'),
         u.fn(K + 'connection/bitrate.rs', 'reset', impl='BitrateTracker', sub='reconn', ensures=[
             C('C08+C17.reconn.bitrate.reset.restarts_the_throughput_measurement_from_zero',
-              'final(self).bytes_sent_total == 0 && final(self).bytes_sent_window == 0 && final(self).last_rate_update_ms == now_ms')]),
+              'final(self).bytes_sent_total == 0 && final(self).bytes_sent_window == 0 && final(self).last_rate_update_ms == now_ms && final(self).current_bitrate_bps == 0.0f64')]),
         u.fn(K + 'connection/bitrate.rs', 'update_on_send', impl='BitrateTracker', sub='reconn'),
     ]))
     u.add(S.RTT_STUBS)
+    # audits of the repository functions modelled by hand-written stubs (their assumed frames must still describe the code)
+    u.audit(T, 'update_estimate', impl='RttTracker', sig=['&mut self', 'rtt_ms: u64', 'now_ms: u64'],
+            forbid=[r'waiting_for_keepalive_response\s*(=[^=]|\|=|&=)', r'last_keepalive_sent_ms\s*(=[^=]|\+=|-=)', r'self\.(reset|record_keepalive_sent|handle_keepalive_response)\('])
+    u.audit(CONN, 'calculate_bitrate', impl='SrtlaConnection', sig=['&mut self', 'now_ms: u64'], require=[r'^\{ self\.bitrate\.calculate\(now_ms\); \}$'])
+    u.audit(CONN, 'queue_building_suspected', impl='SrtlaConnection', sig=['(&self)'])
+    u.audit(K + 'selection/enhanced.rs', 'cc_soft_cap_multiplier', sig=['(conn: &SrtlaConnection)'])
     u.add(impl_block('Ewma', [u.fn(K + 'ewma.rs', 'reset', impl='Ewma', sub='reconn', ensures=['!final(self).initialized'])]))
     u.add(impl_block('RttTracker', [
         u.fn(T, 'reset', impl='RttTracker', sub='reconn',
@@ -298,7 +304,7 @@ def add_rtt(u):
                  C('C14.reconn.keepalive_response.probe_consumed', '!final(self).waiting_for_keepalive_response'),
              ]),
         u.fn(T, 'needs_measurement', impl='RttTracker', sub='reconn', ret='r', ensures=[
-            C('C14.reconn.rtt.probe_due_only_when_none_outstanding_and_3s_old', 'r == (connection_established_ms != 0 && connected && !self.waiting_for_keepalive_response && (self.last_rtt_measurement_ms == 0 || sub_sat(now_ms, self.last_rtt_measurement_ms) > 3000))')]),
+            C('C08+C14.reconn.rtt.probe_due_only_when_none_outstanding_and_3s_old', 'r == (connection_established_ms != 0 && connected && !self.waiting_for_keepalive_response && (self.last_rtt_measurement_ms == 0 || sub_sat(now_ms, self.last_rtt_measurement_ms) > 3000))')]),
     ]))
 
 
@@ -318,12 +324,12 @@ def add_connection(u):
            ensures=[
                C('C06.acct.new_registering.window_starts_at_20000', 'r.window == 20000'),
                C('C02.acct.new_registering.nothing_in_flight', 'r.in_flight_packets == 0 && r.packet_log@.len() == 0 && r.highest_acked_seq == i32::MIN'),
-               'r.wf()', '!r.connected', 'r.phase is Registering', 'r.conn_id == conn_id', 'r.label == label',
+               'r.wf()', '!r.connected', 'r.phase is Registering', C('C19.acct.new_registering.keeps_the_identity_it_was_given', 'r.conn_id == conn_id && r.label == label && r.local_ip == local_ip'),
                C('C13.acct.new_registering.starts_without_delivery_proof_or_stall_state', 'r.last_ack_or_rtt_sample_ms == 0 && r.stall_latched_since_ms == 0 && !r.silence_pulled && !r.stall_gated'),
                'r.batch_sender.queue.len() == 0',
            ]))
     F(u.fn(CONN, 'get_score', impl='SrtlaConnection', sub='select', props=('C03',), ret='r', requires=['0 <= self.window', 'self.batch_sender.wf()'], ensures=[
-        C('C10+C11.select.get_score.window_over_inflight_plus_queued_plus_1', 'r == self.spec_score()')]))
+        C('C03+C10+C11.select.get_score.window_over_inflight_plus_queued_plus_1', 'r == self.spec_score()')]))
     F(u.fn(CONN, 'queue_data_packet', impl='SrtlaConnection', sub='batch', ret='r',
            requires=['old(self).batch_sender.wf()', 'old(self).batch_sender.queue.len() < 0x7fff_fff0'],
            ensures=[
@@ -342,7 +348,7 @@ def add_connection(u):
            requires=['old(self).wf_count()', 'old(self).batch_sender.wf()', 'old(self).packet_log@.len() + old(self).batch_sender.queue.len() < 0x7fff_0000'],
            ensures=[
                C('C02+C05.batch.take_batch.count_equals_set', 'final(self).wf_count()'), 'final(self).batch_sender.wf()',
-               C('C02.batch.take_batch.keeps_log_above_high_water', 'old(self).above_hw() ==> final(self).above_hw()'),
+               C('C02+C10.batch.take_batch.keeps_log_above_high_water', 'old(self).above_hw() ==> final(self).above_hw()'),
                C('C01.batch.take_batch.returns_queue_in_order', '''r.len() == old(self).batch_sender.queue.len()
             && (forall|i: int| 0 <= i < r.len() ==> (#[trigger] r[i]).0@ == old(self).batch_sender.queue[i]@ && r[i].1 == old(self).batch_sender.sequences[i] && r[i].2 == old(self).batch_sender.queue_times[i])'''),
                C('C01.batch.take_batch.queue_emptied', 'final(self).batch_sender.queue.len() == 0'),
@@ -359,7 +365,7 @@ def add_connection(u):
                'self.same_except_log_hw(&mid)',
                'self.packet_log@.len() <= mid.packet_log@.len() + batch_nx',
                'mid.packet_log@.len() + batch@.len() < 0x7fff_0000',
-               C('C02.batch.take_batch.keeps_log_above_high_water', 'old(self).above_hw() ==> self.above_hw()'),
+               C('C02+C10.batch.take_batch.keeps_log_above_high_water', 'old(self).above_hw() ==> self.above_hw()'),
                C('C02.batch.take_batch.registers_exactly_the_tracked_seqs', '''forall|k: i32| #[trigger] self.packet_log@.contains_key(k) <==>
                     (mid.packet_log@.contains_key(k) || exists|i: int| 0 <= i < batch_nx && (#[trigger] batch@[i]).1 is Some && batch@[i].1.unwrap() as i32 == k)'''),
            ], dec='batch.len() - batch_nx')},
@@ -457,8 +463,9 @@ def add_connection(u):
                C('C01.acct.clear_pre_registration_state.queue_dropped', 'final(self).batch_sender.queue.len() == 0 && final(self).batch_sender.wf()'),
                'final(self).wf_count()', 'final(self).above_hw()', '!final(self).congestion.fast_recovery_mode',
                'final(self).connected == old(self).connected', 'final(self).conn_id == old(self).conn_id',
-               'final(self).last_received == old(self).last_received', 'final(self).last_ack_or_rtt_sample_ms == old(self).last_ack_or_rtt_sample_ms',
-               'final(self).reconnection == old(self).reconnection', 'final(self).rtt == old(self).rtt',
+               C('C09+C13.acct.clear_pre_registration_state.liveness_and_delivery_proof_stamps_untouched',
+                 'final(self).last_received == old(self).last_received && final(self).last_ack_or_rtt_sample_ms == old(self).last_ack_or_rtt_sample_ms'),
+               C('C08+C14.acct.clear_pre_registration_state.retry_state_and_rtt_estimator_untouched', 'final(self).reconnection == old(self).reconnection && final(self).rtt == old(self).rtt'),
                C('C14.acct.clear_pre_registration_state.keepalive_cadence_clock_and_send_stamps_untouched',
                  'final(self).last_keepalive_sent == old(self).last_keepalive_sent && final(self).last_sent == old(self).last_sent'),
            ]))
@@ -474,7 +481,8 @@ def add_connection(u):
             && final(self).reconnection.connection_established_ms == old(self).reconnection.connection_established_ms'''),
         'final(self).conn_id == old(self).conn_id',
     ]))
-    F(u.fn(CONN, 'time_since_last_nak_ms', impl='SrtlaConnection', sub='select', ret='r'))
+    F(u.fn(CONN, 'time_since_last_nak_ms', impl='SrtlaConnection', sub='select', ret='r',
+           ensures=['r == (if self.congestion.last_nak_time_ms == 0 { None::<u64> } else { Some(sub_sat(now_ms, self.congestion.last_nak_time_ms)) })']))
     F(u.fn(CONN, 'total_nak_count', impl='SrtlaConnection', sub='select', ret='r', ensures=['r == self.congestion.nak_count']))
     F(u.fn(CONN, 'nak_burst_count', impl='SrtlaConnection', sub='select', ret='r', ensures=['r == self.congestion.nak_burst_count']))
     F(u.fn(CONN, 'connection_established_ms', impl='SrtlaConnection', sub='select', ret='r', ensures=['r == self.reconnection.connection_established_ms']))
@@ -506,6 +514,7 @@ def add_connection(u):
                     C('C01+C12.batch.recompute_batch_regime.frame', 'final(self).same_except_batch_bitrate(old(self)) && final(self).bitrate == old(self).bitrate')]))
     F(u.fn(CONN, 'reset_for_reconnect', impl='SrtlaConnection', sub='acct', ensures=S.RESET_CORE_ENSURES_PUBLIC('reset_for_reconnect') + [
         'final(self).last_received is None', C('C06.acct.reset_for_reconnect.leaves_fast_recovery', '!final(self).congestion.fast_recovery_mode'),
+        C('C14.acct.reset_for_reconnect.keepalive_cadence_clock_untouched', 'final(self).last_keepalive_sent == old(self).last_keepalive_sent && final(self).last_sent == old(self).last_sent'),
         C('C08.acct.reset_for_reconnect.retry_clock_and_backoff_restart', 'final(self).reconnection.last_reconnect_attempt_ms == now && final(self).reconnection.reconnect_failure_count == 0'),
         'final(self).conn_id == old(self).conn_id',
         'final(self).reconnection.connection_established_ms == old(self).reconnection.connection_established_ms',
@@ -541,6 +550,17 @@ def add_connection(u):
                C('C06.acct.handle_srtla_ack_global.in_range', 'win_ok(final(self).window)'),
                C('C02+C06.acct.handle_srtla_ack_global.frame', '*final(self) == (SrtlaConnection { window: final(self).window, ..*old(self) })'),
            ]))
+    # every remaining trivial accessor `pub fn name(&self) -> T { self.a.b }` of SrtlaConnection joins the world with the obvious contract, so a
+    # change that starts calling one (e.g. `conn.stall_gate_events()` from the quality code) is decided instead of rejected by the front end
+    src = read_src(CONN)
+    for m in re.finditer(r'pub fn (\w+)\(&self\) -> (u8|u16|u32|u64|usize|i32|i64|bool|f64) \{\s*(self(?:\.\w+)+)\s*\}', src):
+        name, expr = m.group(1), m.group(3)
+        if 'SrtlaConnection::' + name in u.fn_overlays:
+            continue
+        try:
+            F(u.fn(CONN, name, impl='SrtlaConnection', sub='select', ret='r', ensures=['r == ' + expr]))
+        except Exception:
+            pass
     u.add(impl_block('SrtlaConnection', fns))
     u.add(S.CONN_FLOAT_STUBS)
 
@@ -549,12 +569,23 @@ def add_connection(u):
 def add_selection(u):
     Q = K + 'selection/quality.rs'
     u.add(S.QUALITY_STUB)
+    u.add(u.consts(Q))
+    u.add(u.fn(Q, 'calculate_rtt_bonus', sub='select', ret='r', ensures=[C('C11.select.quality.rtt_bonus_is_the_documented_function_of_the_smoothed_rtt', 'r == spec_rtt_bonus(conn)')]))
+    u.add(u.fn(Q, 'calculate_quality_multiplier_uncached', sub='select', ret='r',
+               post_rewrite=[('(-(nak_age_ms as f64) / HALF_LIFE_MS).exp()', 'f64_exp_neg_ratio(cast_u64_f64(nak_age_ms), HALF_LIFE_MS)', 1)],
+               ensures=[C('C11+C12.select.quality.multiplier_is_the_documented_function_of_age_nak_history_and_rtt', 'r == spec_quality(conn, current_time_ms)')],
+               splices=[('@BEGIN', '    proof { reveal(spec_quality); }', 'after')]))
+    u.add(u.fn(Q, 'calculate_quality_multiplier', sub='select', ret='r',
+               ensures=[C('C11+C12.select.quality.multiplier_is_the_documented_function_of_age_nak_history_and_rtt', 'r == spec_quality(conn, current_time_ms)'), 'q_ok(r)'],
+               splices=[('@BEGIN', '    proof { lemma_quality_in_range(conn, current_time_ms); }', 'after')]))
     u.add(mod_block('classic', u.fn(K + 'selection/classic.rs', 'select_connection', sub='select', props=('C03',), ret='r', qual='classic::select_connection',
                                     requires=[S.WF_SEL('conns')], ensures=S.CLASSIC_ENSURES, loops={0: dict(inv=S.CLASSIC_INV, dec='conns.len() - i_nx')})))
     E = K + 'selection/enhanced.rs'
     ebody = [u.consts(E, names=['IN_FLIGHT_CAP_BDP_MULT', 'SWITCH_THRESHOLD', 'CC_SOFT_CAP_FLOOR', 'GATED_LINK_PENALTY']),
              u.item(K + 'selection/link_cc.rs', 'const', 'ASSUMED_SRT_PAYLOAD_BYTES'),
              S.ENH_STUBS,
+             # the cold logging helper is a verified body, not a stub: a stub with a `&` parameter would hide a change that makes it mutate the link
+             u.fn(E, 'log_quality_state', sub='select', qual='enhanced::log_quality_state'),
              u.fn(E, 'in_flight_cap_packets', sub='select', ret='r', qual='enhanced::in_flight_cap_packets',
                   post_rewrite=[('(cc_target_bps as f64)', 'cast_u64_f64(cc_target_bps)', 1), ('ASSUMED_SRT_PAYLOAD_BYTES as f64', 'cast_u64_f64(ASSUMED_SRT_PAYLOAD_BYTES)', 1),
                                 ('Some(cap.min(i32::MAX as f64) as i32)', 'Some(cast_f64_i32(cap.min(cast_i32_f64(i32::MAX))))', 1)],
